@@ -113,6 +113,16 @@ class WalkInterp(Interp):
                 from_v = True
             elif path(r) in holders:
                 from_v = True
+            elif r.get("k") == "cond" and av is not None and av.positive():
+                # `x = (v == SKIP_SIBLINGS) ? CONTINUE : v` with v the positive result: the value assigned is v's
+                def arms(e):
+                    e = strip(e)
+                    if isinstance(e, dict) and e.get("k") == "cond":
+                        return arms(e.get("then")) + arms(e.get("else"))
+                    return [e]
+                pos_arms = [a for a in arms(r) if isinstance(a, dict) and not (const(a) is not None and const(a) <= 0)]
+                if pos_arms and all(path(a) in holders for a in pos_arms):
+                    from_v = True
         if from_v and p not in holders:
             return st.with_ts((stop, origin, skipcur, sibl, seq, holders | {p}, mark, last))
         if not from_v and p in holders:
